@@ -24,6 +24,7 @@ package c15
 import (
 	"encoding/json"
 	"fmt"
+	"github.com/caddyserver/certmagic"
 	"net"
 	"net/http"
 	"net/http/httptest"
@@ -172,6 +173,40 @@ func run(c *lib.Ctx) {
 	close(ch)
 	wg.Wait()
 
+	// ---- second pass: the default HTTP port moved away from 80. A site
+	// written with the literal port 80 is still "declared with port 80".
+	// Sets that use the new HTTP port itself as a literal are left out.
+	oldPort := certmagic.HTTPPort
+	certmagic.HTTPPort = altHTTPPort
+	altPass = true
+	step := c.Pick(4, 1)
+	ch = make(chan int, 256)
+	for w := 0; w < workers; w++ {
+		wg.Add(1)
+		go func() {
+			defer wg.Done()
+			for i := range ch {
+				evalSet(c, fx, len(sets)+i, sets[i])
+			}
+		}()
+	}
+	for i := 0; i < len(sets); i += step {
+		uses := false
+		for j := range sets[i].Sites {
+			if sets[i].site(j).Port == fmt.Sprint(altHTTPPort) {
+				uses = true
+			}
+		}
+		if !uses {
+			ch <- i
+		}
+	}
+	close(ch)
+	wg.Wait()
+	altPass = false
+	certmagic.HTTPPort = oldPort
+	c.Floor("qualification_verdicts_with_moved_http_port", 2000)
+
 	c.Exhaustive(false)
 	c.Floor("loads_ok", int64(c.Pick(5000, 200000)))
 	c.Floor("sites_expected_managed", 500)
@@ -222,6 +257,14 @@ func listenAddr(listenHost, port string) string {
 	}
 	return a.String()
 }
+
+// altHTTPPort: the default HTTP port of the second, shorter pass (what
+// -http-port 8080 sets). In that pass only the qualification verdicts are
+// judged: the statement names "port 80", and what else a moved HTTP port
+// means for the other clauses is not spelt out in it.
+const altHTTPPort = 8080
+
+var altPass bool
 
 func evalSet(c *lib.Ctx, fx *fixtures, id int, spec setSpec) {
 	text := spec.render(fx)
@@ -318,6 +361,10 @@ func evalSet(c *lib.Ctx, fx *fixtures, id int, spec setSpec) {
 				c.Violation("C15/non-qualifying-site-managed", fmt.Sprintf("site %s does not qualify (%s) but TLS.Managed=%v", s.key(), s.whyNot(), o.Managed), w)
 			}
 		}
+		if altPass {
+			c.Count("qualification_verdicts_with_moved_http_port", 1)
+			continue
+		}
 		if q {
 			if !o.Enabled || o.Scheme != "https" {
 				c.Violation("C15/qualifying-site-not-https", fmt.Sprintf("qualifying site %s ended with TLS.Enabled=%v scheme=%q", s.key(), o.Enabled, o.Scheme), w)
@@ -341,6 +388,12 @@ func evalSet(c *lib.Ctx, fx *fixtures, id int, spec setSpec) {
 		}
 	}
 
+	if altPass {
+		if nontrivial {
+			c.Nontrivial("http-port 8080|" + text)
+		}
+		return
+	}
 	// ---- (2) redirect synthesis, per host
 	type hostInfo struct {
 		https    []int // declared sites with TLS enabled at the end
